@@ -11,7 +11,7 @@ import LMV.Driver.Util
 namespace LMV.Driver.C09
 open LMV LMV.Pwm LMV.Driver
 
-def ops : List String := ["c09seqs", "c09pipe", "c09bg", "c09fnew", "c09score", "c09cs"]
+def ops : List String := ["c09seqs", "c09pipe", "c09bg", "c09fnew", "c09score", "c09cs", "c09laws"]
 
 def alphabetOf (s : String) : Alphabet := if s == "dna" then dna else protein
 
@@ -142,6 +142,12 @@ def handle (toks : List String) : String :=
     let A := alphabetOf alpha
     let (s, _) := takeNats rest (parseNat! l)
     s!"{joinNat ((List.range A.K).map (countSymbol s))} | {joinNat (countSymbols A.K s)}"
+  | "c09laws" :: _ =>
+    -- the laws the structural theorems name, evaluated on the IEEE instance:
+    -- `2.0 == 2.0`, `log2 0.0`, `log10 0.0`, `ln 0.0` (all `-∞`), the empty `Sum`, `0.01`
+    let z : Float32 := zero
+    let two : Float32 := Arith.ofNat 2
+    s!"{Arith.beq two two} {showF (log2 z)} {showF (log10 z)} {showF (ln z)} {showF (negInf : Float32)} {showF (sumRange 0 (fun _ => z))} {showF (hundredth : Float32)} {showF (Arith.ofNat 10 : Float32)}"
   | _ => "bad-case"
 
 end LMV.Driver.C09
